@@ -245,6 +245,11 @@ theorem scaleAction_bounded (act : List K) (rng : List (K × K))
       · exact scaleAct_mem_range a r.1 r.2 (ha a (by simp)).1 (ha a (by simp)).2 (hr r (by simp))
       · exact ih rs (fun a' h' => ha a' (by simp [h'])) (fun r' h' => hr r' (by simp [h'])) p hp
 
+theorem action_in_ctrl_range_inverted_pendulum (rng : List (K × K)) (act : List K)
+    (ha : ∀ a ∈ act, -1 ≤ a ∧ a ≤ 1) (hr : ∀ r ∈ rng, r.1 ≤ r.2) :
+    ∀ p ∈ (InvertedPendulum.action rng act).zip rng, p.2.1 ≤ p.1 ∧ p.1 ≤ p.2.2 :=
+  scaleAction_bounded act rng ha hr
+
 theorem action_in_ctrl_range_pusher (c : Pusher.Cfg K) (act : List K)
     (ha : ∀ a ∈ act, -1 ≤ a ∧ a ≤ 1) (hr : ∀ r ∈ c.ctrlRange, r.1 ≤ r.2) :
     ∀ p ∈ (Pusher.action c act).zip c.ctrlRange, p.2.1 ≤ p.1 ∧ p.1 ≤ p.2.2 :=
